@@ -21,6 +21,7 @@ import ast
 from ..effects import Effects
 from ..facts import expand_ast, regex_pieces
 from ..loader import dotted, norm
+from ..paths import truth
 
 
 def _kw(call, name, pos=None):
@@ -207,6 +208,106 @@ def virtual_roundtrip(ctx, rep, rule, virt, seps, reals=None, argsets=None, what
             "; ".join(sorted(problems)[:4]), key=f"{rule}|virtual-init")
 
 
+def folder_message_evaluation(ctx, rep, rule) -> bool:
+    """True when the evaluation decided (obligations added); False = fall back to the structural form."""
+    from ..paths import Const, State, Walker
+
+    prog = ctx.prog
+    fh = ctx.cls("handlers.mbox.FolderHandler")
+    mh = ctx.cls("handlers.mbox.MessageHandler")
+    virt = ctx.cls("handlers.virtual.Virtual")
+    if fh is None or mh is None or virt is None:
+        return False
+    folders = prog.subclasses(fh, strict=True)
+    messages = prog.subclasses(mh, strict=True)
+    results = []
+
+    def emitted(F, index):
+        prep = prog.resolve_method(fh, "prepare")
+        if prep is None:
+            return None
+        loops = [n for n in ast.walk(prep.node) if isinstance(n, ast.For) and "enumerate" in norm(n.iter)]
+        if len(loops) != 1 or not isinstance(loops[0].target, ast.Tuple) or not isinstance(loops[0].target.elts[0], ast.Name):
+            return None
+        en = loops[0].iter
+        start = 0
+        if isinstance(en, ast.Call):
+            for k in en.keywords:
+                if k.arg == "start" and isinstance(k.value, ast.Constant):
+                    start = k.value.value
+            if len(en.args) > 1 and isinstance(en.args[1], ast.Constant):
+                start = en.args[1].value
+        ivar = loops[0].target.elts[0].id
+        w = Walker(prog, ctx.resolver, assumptions={"self.selectorreal": Const("/box")}, sticky={"self.selectorreal"},
+                   inline=lambda fn, t, d: d < 4 and t.bound_cls is not None and fn.name not in ("getentry", "openmailbox"))
+        w.frame = (prep, F)
+        w._budget = 200000
+        out = set()
+        for kind, val, st in w.exec_block(loops[0].body, State(env={ivar: Const(index)}, facts={"self.selectorreal": Const("/box")})):
+            for e in st.events:
+                if e.kind == "call" and getattr(e.target, "kind", "") == "ctor" and e.target.cls is not None and prog.is_subclass(e.target.cls, mh):
+                    a = (e.extra or {}).get("args") or []
+                    out.add(a[0].value if a and a[0].kind == "const" and isinstance(a[0].value, str) else None)
+        return (out, start)
+
+    decided = True
+    for F in folders:
+        for k in (1, 12):
+            em = emitted(F, k)  # the loop variable holds k when the selector is built
+            if em is None:
+                return False
+            outs, start = em
+            if None in outs or len(outs) != 1:
+                decided = False
+                continue
+            results.append((F, k, next(iter(outs)), start))
+    if not decided or not results:
+        return False
+    for F, idx, sel, start in results:
+        problems = []
+        if start < 1:
+            problems.append(f"messages are numbered from {start} but message handlers only accept numbers >= 1")
+        if "|" not in sel and "?" not in sel:
+            problems.append(f"the listed selector {sel!r} carries no argument part")
+            args = ""
+        else:
+            cut = min(i for i in (sel.find("?"), sel.find("|")) if i >= 0)
+            args = sel[cut + 1:]
+        number = idx  # the value the loop variable had when the selector was built
+        takers = []
+        for M in messages:
+            can = prog.resolve_method(M, "canhandlerequest")
+            if can is None:
+                continue
+            w = Walker(prog, ctx.resolver, assumptions={"self.selectorargs": Const(args), "self.selectorreal": Const("/box"),
+                                                        "type(self.vfs) is not VFS_Real": Const(False), "type(self.vfs) is VFS_Real": Const(True)},
+                       sticky={"self.selectorargs", "self.selectorreal"},
+                       inline=lambda fn, t, d: d < 3 and t.bound_cls is not None)
+            verdicts = set()
+            nums = set()
+            for p in w.run(can, M):
+                if p.kind == "raise":
+                    verdicts.add("raise")
+                    continue
+                t = truth(p.value)
+                verdicts.add(t)
+                if t is True:
+                    mn = p.state.facts.get("self.message_num")
+                    nums.add(mn.value if mn is not None and mn.kind == "const" else None)
+            if verdicts == {True}:
+                takers.append((M, nums))
+            elif True in verdicts or None in verdicts:
+                takers.append((M, {None}))
+        if number >= 1:
+            good = [M for M, nums in takers if nums == {number}]
+            if len(good) < 1:
+                problems.append(f"no message handler accepts the listed selector {sel!r} as message {number}: "
+                                f"{[(M.name, sorted(map(str, n))) for M, n in takers]}")
+        rep.add(rule, f"{F.qualname}: listed message {number} ({sel!r}) is recognised by a message handler", not problems, ctx.where(F.module, F.node),
+                "; ".join(problems), key=f"{rule}|{F.qualname}|msg{number}")
+    return True
+
+
 def check(ctx, rep):
     prog = ctx.prog
     eff = Effects(prog, ctx.resolver)
@@ -286,7 +387,9 @@ def check(ctx, rep):
         UNQ = ("unquote", "unquote_plus", "unquote_to_bytes")
         sel_decs, layer_counts = [], set()
         seen_prov = set()
-        for pth in _W(prog, ctx.resolver, merge_loops=True).run(h, P):
+        from ..structure import inline_attr_setters
+
+        for pth in _W(prog, ctx.resolver, merge_loops=True, inline=inline_attr_setters(prog, "self.selector")).run(h, P):
             reached = [e for e in pth.events if e.kind == "call" and isinstance(e.node.func, ast.Attribute) and e.node.func.attr == "gethandler"]
             if not reached:
                 continue
@@ -413,28 +516,49 @@ def check(ctx, rep):
     if pe is None or gh is None:
         rep.fail("R05d", "DirHandler.prep_entries", detail="child-entry construction not found")
     else:
-        problems = []
-        loops = [n for n in ast.walk(pe.node) if isinstance(n, ast.For)]
-        calls = [c for c, t in eff.calls_of(pe, dirbase) if t.kind == "repo" and gh in t.funcs]
-        if not calls:
-            problems.append("child entries are not resolved through the handler chain")
-        for c in calls:
-            loop = next((l for l in loops if any(x is c for x in ast.walk(l))), None)
-            var = norm(loop.target) if loop is not None else None
-            a0 = expand_ast(c.args[0], pe) if c.args else None
-            from ..structure import concat_pieces
+        from ..paths import State, Walker
+        from ..structure import concat_pieces, resolve_value
 
-            got = concat_pieces(a0) if a0 is not None else None
-            want = [("expr", "self.selectorbase"), ("lit", "/"), ("expr", var)]
-            if got != want:
-                problems.append(f"the child selector is `{norm(a0) if a0 is not None else '?'}`, not selectorbase + '/' + {var}")
-            kw = {k.arg: norm(k.value) for k in c.keywords}
-            if kw.get("vfs") != "self.vfs" and not (len(c.args) >= 6 and norm(c.args[5]) == "self.vfs"):
-                problems.append("children are looked up on a different VFS than their directory")
-        ge_calls = [n for n in ast.walk(pe.node) if isinstance(n, ast.Call) and isinstance(n.func, ast.Attribute) and n.func.attr == "getentry"]
-        if not ge_calls:
-            problems.append("the listed entry is not the one the child's own handler produces")
+        problems = []
+        loops = [n for n in ast.walk(pe.node) if isinstance(n, ast.For) and norm(n.iter) in ("self.files",)]
+        if len(loops) != 1:
+            problems.append(f"{len(loops)} loops over the file list")
+        n_lookup = 0
+        for loop in loops:
+            var = norm(loop.target)
+            # helpers of the directory handler that the loop body delegates to are part of it
+            w = Walker(prog, ctx.resolver, merge_loops=True,
+                       inline=lambda fn, t, d: d < 3 and t.bound_cls is not None and fn.cls is not None and prog.is_subclass(dirbase, fn.cls)
+                       and fn.name not in ("prep_entriesappend",))
+            w.frame = (pe, dirbase)
+            w._budget = 200000
+            for kind, val, st in w.exec_block(loop.body, State()):
+                lookups = [e for e in st.events if e.kind == "call" and getattr(e.target, "kind", "") == "repo" and gh in e.target.funcs]
+                entries = [e for e in st.events if e.kind == "call" and isinstance(e.node.func, ast.Attribute) and e.node.func.attr == "getentry"]
+                if not lookups:
+                    continue
+                n_lookup += 1
+                for e in lookups:
+                    c = e.node
+                    fn = e.frame[0] if e.frame else pe
+                    a0 = resolve_value(c.args[0], fn, dirbase, e.defs or {}, prog, ctx.resolver) if c.args else None
+                    got = concat_pieces(a0) if a0 is not None else None
+                    want = [("expr", "self.selectorbase"), ("lit", "/"), ("expr", var)]
+                    if got != want:
+                        problems.append(f"the child selector is `{norm(a0) if a0 is not None else '?'}`, not selectorbase + '/' + {var}")
+                    kw = {k.arg: norm(k.value) for k in c.keywords}
+                    if kw.get("vfs") != "self.vfs" and not (len(c.args) >= 6 and norm(c.args[5]) == "self.vfs"):
+                        problems.append("children are looked up on a different VFS than their directory")
+                if kind != "raise" and not entries and not any(e.kind == "raise" for e in st.events):
+                    problems.append("the listed entry is not the one the child's own handler produces")
+        if loops and not n_lookup:
+            problems.append("child entries are not resolved through the handler chain")
+        problems = sorted(set(problems))
         rep.add("R05d", f"{pe.qualname}: child = selectorbase/name via getHandler", not problems, ctx.where(pe), "; ".join(problems), key="R05d|prep_entries")
+    # folder <-> message handlers: what a folder lists is evaluated by the walker (message number 7 and 12 of a folder
+    # whose real selector is /box) and handed to each message handler's own test, which has to accept it as that number
+    if folder_message_evaluation(ctx, rep, "R05d"):
+        return
     # folder <-> message handlers
     fh = ctx.cls("handlers.mbox.FolderHandler")
     mh = ctx.cls("handlers.mbox.MessageHandler")
